@@ -285,3 +285,17 @@ func TestC15Restart(t *testing.T) {
 	col.CaseHash(stats.HashJSON("fixed-leaves-from-other-processes"), true, []string{"leaves-written-by-other-processes", "second-generation"}, func() any { return sampleOf(c) })
 	reportBig(t, col, "C15", "merge-vectors", c, safeRun(c15, c))
 }
+
+// Deterministic plan: two inputs of 100000 documents each, all carrying the SAME vector. Ids that
+// were unique inside each input need not be unique across them (D9); the merged index must still
+// hold and count every vector.
+func TestC15Identical(t *testing.T) {
+	col := stats.New("C15", "merge-vectors")
+	defer col.Write()
+	leaf := func(seed uint32) spec.MergePlan {
+		return spec.MergePlan{Leaf: &spec.BatchSpec{VecWide: &spec.VecWideSpec{N: 100000, Field: "vec", Dim: 2, Metric: "l2_norm", Opt: "recall", Seed: seed, Same: true}}}
+	}
+	c := planCase{Plan: &spec.MergePlan{Children: []spec.MergePlan{leaf(1), leaf(2)}, Drops: []spec.DropSpec{{Nil: true}, {Docs: []uint32{0}}}}}
+	col.CaseHash(stats.HashJSON("fixed-identical-vectors-in-two-inputs"), true, []string{"clustered", "2x100000-identical-vectors"}, func() any { return sampleOf(c) })
+	reportBig(t, col, "C15", "merge-vectors", c, safeRun(c15, c))
+}
